@@ -915,3 +915,217 @@ def loc_start(e, args, fr, m):
 def loc_end(e, args, fr, m):
     v = e.load(args[0])
     return v.fields[2]
+
+
+# ------------------------------------------------------------------------------------------------ regex (by contract)
+import re as _re
+
+REGEX_PATTERNS = {'\\n', '\\d+\\.\\d+\\.+\\d+'}
+
+
+class SymText(Str):
+    """text of a file as a sequence of characters whose *class* is concrete on a path (newline or not) and whose byte
+    width (1..4) is symbolic; `chars`: list of ('nl',) | ('ch', width term)"""
+    __slots__ = ('chars',)
+
+    def __init__(self, chars):
+        self.chars = chars
+        self.v = None
+
+    @property
+    def concrete(self):
+        return False
+
+    def starts(self):
+        out, acc = [], z3.BitVecVal(0, 64)
+        for c in self.chars:
+            out.append(acc)
+            acc = acc + (z3.BitVecVal(1, 64) if c[0] == 'nl' else c[1])
+        return out, acc
+
+    def render(self, model, rng=None):
+        reps = {1: ['a', ' ', '\r', ';'], 2: ['é'], 3: ['€'], 4: ['\U0001d11e']}
+        out = []
+        for c in self.chars:
+            if c[0] == 'nl':
+                out.append('\n')
+            else:
+                w = model.eval(c[1], model_completion=True).as_long()
+                alts = reps[w]
+                out.append(alts[rng.randrange(len(alts))] if rng else alts[0])
+        return ''.join(out)
+
+
+class SegStr(Str):
+    """string made of literal pieces and decimal renderings of symbolic naturals: [('lit', str) | ('dec', z3 Int)]"""
+    __slots__ = ('segs',)
+
+    def __init__(self, segs):
+        merged = []
+        for s in segs:
+            if s[0] == 'lit' and merged and merged[-1][0] == 'lit':
+                merged[-1] = ('lit', merged[-1][1] + s[1])
+            elif not (s[0] == 'lit' and s[1] == ''):
+                merged.append(s)
+        self.segs = merged
+        parts = [z3.StringVal(s[1]) if s[0] == 'lit' else z3.IntToStr(s[1]) for s in merged]
+        self.v = z3.Concat(*parts) if len(parts) > 1 else (parts[0] if parts else z3.StringVal(''))
+
+    @property
+    def concrete(self):
+        return False
+
+    def skeleton(self):
+        """text with every symbolic number replaced by a one-digit representative + map char index -> (seg, offset)"""
+        text, owner = [], []
+        for i, s in enumerate(self.segs):
+            piece = s[1] if s[0] == 'lit' else '7'
+            for j, ch in enumerate(piece):
+                text.append(ch)
+                owner.append((i, j))
+        return ''.join(text), owner
+
+    def sub(self, a, b, owner):
+        """sub-string for skeleton char range [a, b) — symbolic numbers can only be taken whole"""
+        segs, i = [], a
+        while i < b:
+            si, off = owner[i]
+            s = self.segs[si]
+            if s[0] == 'dec':
+                segs.append(s)
+                i += 1
+            else:
+                j = i
+                while j < b and owner[j][0] == si:
+                    j += 1
+                segs.append(('lit', s[1][off:off + (j - i)]))
+                i = j
+        return SegStr(segs)
+
+    def split(self, e, pat):
+        if not pat.concrete or any(ch.isdigit() for ch in pat.v):
+            raise Unsupported('split of a structured string by %r' % (pat,))
+        text, owner = self.skeleton()
+        out, i = [], 0
+        while True:
+            j = text.find(pat.v, i)
+            if j < 0:
+                out.append(self.sub(i, len(text), owner))
+                break
+            out.append(self.sub(i, j, owner))
+            i = j + len(pat.v)
+        return [simplify_seg(x) for x in out]
+
+    def parse_int(self, e, ty, lo, hi):
+        if len(self.segs) == 1 and self.segs[0][0] == 'dec':
+            n = self.segs[0][1]
+            w = INT_TYPES[ty][0]
+            if e.branch(n <= hi):
+                return ok(Int(z3.Int2BV(n, w), ty))
+            return err(Adt('ParseIntError', None, (Str('number too large to fit in target type'),)))
+        if all(s[0] == 'lit' for s in self.segs):
+            raise Unsupported('parse of literal SegStr')   # simplify_seg turns these into plain Str
+        # digits mixed with other characters, or several numbers glued together
+        text, _ = self.skeleton()
+        if _re.match(r'^[0-9]+$', text):
+            raise Unsupported('parse of a number glued from several symbolic parts')
+        return err(Adt('ParseIntError', None, (Str('invalid digit found in string'),)))
+
+    def render(self, model):
+        return ''.join(s[1] if s[0] == 'lit' else str(model.eval(s[1], model_completion=True).as_long())
+                       for s in self.segs)
+
+
+def simplify_seg(s):
+    if all(x[0] == 'lit' for x in s.segs):
+        return Str(''.join(x[1] for x in s.segs))
+    return s
+
+
+@contract(r'^Regex::new$')
+def regex_new(e, args, fr, m):
+    p = e.load(args[0])
+    if not p.concrete:
+        raise Unsupported('symbolic regex pattern')
+    if p.v not in REGEX_PATTERNS:
+        raise Unsupported('regex pattern %r has no contract' % p.v)
+    return ok(Adt('Regex', None, (p,)))
+
+
+def _match(start, end, text):
+    return Adt('Match', None, (start, end, text))
+
+
+@contract(r'^Regex::captures_iter$')
+def regex_captures_iter(e, args, fr, m):
+    rx = e.load(args[0])
+    pat = rx.fields[0].v
+    text = e.load(args[1])
+    caps = []
+    if isinstance(text, SymText):
+        if pat != '\\n':
+            raise Unsupported('regex %r on symbolic text' % pat)
+        # force the class of every character (newline or not): one decision per character
+        chars = []
+        for c in text.chars:
+            c = e.force(c) if isinstance(c, Choice) else c
+            chars.append(c)
+        t = SymText(chars)
+        e.extra['text'] = t
+        starts, _ = t.starts()
+        for c, s in zip(chars, starts):
+            if c[0] == 'nl':
+                caps.append(Adt('Captures', None, (VecV([some(_match(Int(s, 'usize'), Int(s + 1, 'usize'), Str('\n')))]),)))
+        return IterV(caps, 0, 'val')
+    if isinstance(text, SegStr):
+        skel, owner = text.skeleton()
+        for mm in _re.finditer(pat, skel):
+            # the match structure must not depend on the representative digits: a match may not start or end inside
+            # a symbolic number (it cannot: they are single characters in the skeleton) — and digits adjacent to a
+            # symbolic number belong to the same \d+ run in every instance, as in the skeleton
+            groups = [some(_match(Opaque('usize', 'match.start'), Opaque('usize', 'match.end'),
+                                  simplify_seg(text.sub(mm.start(g), mm.end(g), owner)))) if mm.start(g) >= 0 else NONE
+                      for g in range(0, (mm.re.groups or 0) + 1)]
+            caps.append(Adt('Captures', None, (VecV(groups),)))
+        return IterV(caps, 0, 'val')
+    if not text.concrete:
+        raise Unsupported('regex on an unstructured symbolic string')
+    s = text.v
+    for mm in _re.finditer(pat, s):
+        groups = []
+        for g in range(0, (mm.re.groups or 0) + 1):
+            if mm.start(g) < 0:
+                groups.append(NONE)
+            else:
+                a, b = len(s[:mm.start(g)].encode('utf-8')), len(s[:mm.end(g)].encode('utf-8'))
+                groups.append(some(_match(Int(a, 'usize'), Int(b, 'usize'), Str(mm.group(g)))))
+        caps.append(Adt('Captures', None, (VecV(groups),)))
+    return IterV(caps, 0, 'val')
+
+
+@contract(r"^Captures::<'_>::iter$")
+def captures_iter_groups(e, args, fr, m):
+    c = e.load(args[0])
+    return IterV(c.fields[0].items, 0, 'val')
+
+
+@contract(r"^Captures::<'_>::get$")
+def captures_get(e, args, fr, m):
+    c = e.load(args[0])
+    i = e.force(args[1]).v
+    return c.fields[0].items[i] if i < len(c.fields[0].items) else NONE
+
+
+@contract(r"^Match::<'_>::start$")
+def match_start(e, args, fr, m):
+    return e.load(args[0]).fields[0]
+
+
+@contract(r"^Match::<'_>::end$")
+def match_end(e, args, fr, m):
+    return e.load(args[0]).fields[1]
+
+
+@contract(r"^Match::<'_>::as_str$")
+def match_as_str(e, args, fr, m):
+    return e.load(args[0]).fields[2]
